@@ -291,6 +291,59 @@ theorem binaryDigits_value (n : Nat) : ofDigitsBE (binaryDigits n) = n := by
   unfold binaryDigits
   rw [ofDigitsBE_reverse, reprLoop_value _ _ (by omega)]
 
+/-- a most-significant-first list of `k` binary digits is below `2^k` -/
+theorem foldl_digits_lt : ∀ (ds : List Nat) (v : Nat), (∀ d ∈ ds, d < 2) →
+    ds.foldl (fun acc d => acc * 2 + d) v < (v + 1) * 2 ^ ds.length
+  | [], v, _ => by simp
+  | d :: ds, v, h => by
+    have hd : d < 2 := h d (by simp)
+    have ih := foldl_digits_lt ds (v * 2 + d) (fun x hx => h x (by simp [hx]))
+    simp only [List.foldl_cons, List.length_cons]
+    have : (v * 2 + d + 1) * 2 ^ ds.length ≤ (v + 1) * 2 ^ (ds.length + 1) := by
+      rw [Nat.pow_succ, Nat.mul_comm (2 ^ ds.length) 2, ← Nat.mul_assoc]
+      exact Nat.mul_le_mul_right _ (by omega)
+    omega
+
+theorem bitChar_eq_digitChar (i : Nat) : bitChar i = digitChar (norm i) := by
+  unfold bitChar digitChar norm; split <;> simp_all
+
+/-- a group of eight always packs (the `unwrap` cannot fail) -/
+theorem packGroup_total (o : BitOrder) (g : List Nat) (hg : g.length = 8) : ∃ b, packGroup o g = .ok b := by
+  obtain ⟨ds, hds, hlen, hbits⟩ : ∃ ds : List Nat,
+      (if o = .little then (g.map bitChar).reverse else g.map bitChar) = ds.map digitChar ∧ ds.length = 8 ∧ ∀ d ∈ ds, d < 2 := by
+    by_cases ho : o = .little
+    · refine ⟨(g.map norm).reverse, by simp [ho, List.map_reverse, bitChar_eq_digitChar, Function.comp_def], by simp [hg], ?_⟩
+      intro d hd; simp only [List.mem_reverse, List.mem_map] at hd
+      obtain ⟨i, _, rfl⟩ := hd; unfold norm; split <;> omega
+    · refine ⟨g.map norm, by simp [ho, bitChar_eq_digitChar, Function.comp_def], by simp [hg], ?_⟩
+      intro d hd; simp only [List.mem_map] at hd
+      obtain ⟨i, _, rfl⟩ := hd; unfold norm; split <;> omega
+  have hne : ds ≠ [] := by intro e; rw [e] at hlen; simp at hlen
+  have hv : ofDigitsBE ds < 2 ^ 8 := by
+    have := foldl_digits_lt ds 0 hbits
+    rw [hlen] at this; simpa [ofDigitsBE] using this
+  refine ⟨ofDigitsBE ds, ?_⟩
+  unfold packGroup
+  simp only [hds, parseRadix2U, parseRadix2_digits ds hne hbits, Option.bind_some, hv, if_true, Res.unwrap]
+
+theorem mapM'_total {α β} (f : α → Res β) : ∀ xs : List α, (∀ x ∈ xs, ∃ y, f x = .ok y) → ∃ ys, Res.mapM' f xs = .ok ys
+  | [], _ => ⟨[], rfl⟩
+  | x :: xs, h => by
+    obtain ⟨y, hy⟩ := h x (by simp)
+    obtain ⟨ys, hys⟩ := mapM'_total f xs (fun x' hx' => h x' (by simp [hx']))
+    exact ⟨y :: ys, by rw [mapM'_cons, hy]; simp only [Res.bind_ok]; rw [hys]; rfl⟩
+
+/-- **packing never fails**, whatever the values and the length -/
+theorem packFlat_total (o : BitOrder) (xs : List Nat) : ∃ r, packFlat o xs = .ok r := by
+  unfold packFlat
+  apply mapM'_total
+  intro p hp
+  have hp' : p < (pad8 xs).length / 8 := by simpa using hp
+  have hle : (p + 1) * 8 ≤ (pad8 xs).length := by have := pad8_length_mod xs; omega
+  have hg : group8 (pad8 xs) p = .ok (((pad8 xs).drop (p * 8)).take 8) := by simp [group8, hle]
+  obtain ⟨b, hb⟩ := packGroup_total o (((pad8 xs).drop (p * 8)).take 8) (by simp [List.length_take, List.length_drop]; omega)
+  exact ⟨b, by rw [hg]; simpa using hb⟩
+
 theorem two_pow_pred (w : Nat) (hw : 0 < w) : 2 ^ w = 2 * 2 ^ (w - 1) := by
   cases w with
   | zero => omega
